@@ -9,13 +9,13 @@
  *   str.kmp.init.table   kmp_init: raises for the empty pattern, otherwise sets up the state (i = j = 0, text/pattern
  *                        recorded) and lookup[k] == border(pat, k) for every k, hence 0 <= lookup[k] <= k
  *                        (bounded: every pattern of length <= KMP_TABLE_MAXPAT, all byte contents)
- *   str.kmp.search.exact the sequence of results of kmp_next equals the reference search: the first call (after a start
- *                        index was stored in state->i, as findsetup/replacesetup do) returns the first occurrence at or
- *                        after start; after a hit the caller either continues (string/find-all: next result is the
- *                        first occurrence after r, overlapping ones included) or calls kmp_seti(r + patlen)
- *                        (replace-all, split: next result is the first occurrence at or after r + patlen); -1 only when
- *                        there is none. state->i == r + patlen after a hit.
- *                        (bounded: text <= KMP_MAXTEXT bytes, pattern <= KMP_MAXPAT bytes, all contents, all starts)
+ *   str.kmp.search.exact.pN (N = pattern length 1..4) the sequence of results of kmp_next equals the reference search:
+ *                        the first call (after a start index was stored in state->i, as findsetup/replacesetup do)
+ *                        returns the first occurrence at or after start; after a hit the caller either continues
+ *                        (string/find-all: next result is the first occurrence after r, overlapping ones included) or
+ *                        calls kmp_seti(r + patlen) (replace-all, split: next result is the first occurrence at or
+ *                        after r + patlen); -1 only when there is none (see check_search for the induction).
+ *                        (bounded: text <= KMP_MAXTEXT bytes, all contents, all starts)
  * Inputs are malloc'd blocks of exactly the stated length, so every out-of-range read is a failed pointer obligation. */
 #include "prelude.h"
 #include <stdlib.h>
@@ -146,7 +146,11 @@ static void check_search(int32_t patlen, int32_t textlen) {
   case 10 * m + 6: check_search(m, 6); break; case 10 * m + 7: check_search(m, 7); break; case 10 * m + 8: check_search(m, 8); break;
 void h_kmp_search(void) {
   switch (nd_int()) {
+#ifdef KMP_PATLEN
+    SEARCH_CASES(KMP_PATLEN)           /* one unit per pattern length (the union of all 36 cases did not solve in 5 min) */
+#else
     SEARCH_CASES(1) SEARCH_CASES(2) SEARCH_CASES(3) SEARCH_CASES(4)
+#endif
     default: break;
   }
 }
